@@ -179,10 +179,10 @@ let () =
          dump !st;
          (match !trk with Some t -> pr "%s\n" t | None -> ());
          (* decidable invariants of Kernel/InvB.v on the state just reached (model side only; diverted by lib/lockstep.py) *)
-         if not interactive && not !no_inv then begin
+         if not interactive then begin
            let v = valid_b !st in
-           let r = inv_report !st in
-           pr "#I valid=%d fail=%s\n" (b2i v) (String.concat "," (List.map (fun n -> string_of_int (int_of_nat n)) r))
+           let r = if !no_inv then [] else inv_report !st in
+           pr "#I valid=%d checked=%d fail=%s\n" (b2i v) (b2i (not !no_inv)) (String.concat "," (List.map (fun n -> string_of_int (int_of_nat n)) r))
          end;
          if interactive then begin pr ".\n"; flush_out (); flush stdout end
          else if Buffer.length buf > (1 lsl 19) then flush_out ()
